@@ -212,6 +212,14 @@ def run_case(case: dict) -> CaseResult:
                 classes.add("waiter")
                 env.spawn(f"wait{i}", sess.conn.send_message_await_response(pb.PingRequest(), by_id[op["type"]], 200.0))
                 expected_writes.append(7)
+            elif o == "local_disconnect":
+                # the client's own graceful disconnect is in flight (request written, the device has not answered):
+                # the session is still up, dispatch and the answers to the device's requests go on as before
+                if not state.get("local_disc"):
+                    state["local_disc"] = True
+                    classes.add("local_disconnect_in_flight")
+                    env.spawn(f"ldisc{i}", sess.cli.disconnect())
+                    expected_writes.append(5)
             elif o == "peer":
                 classes.add("peer_request")
                 what = op["what"]
@@ -279,7 +287,7 @@ def run_case(case: dict) -> CaseResult:
         closed = after == "CLOSED" or any(e["kind"] == "state" and e["value"].name == "CLOSED" for e in env.trace)
         if not closed:
             res.violations.append(Violation(ID, "c12:undecodable-not-closed", ""))
-        if [x[1] for x in s.stops] != [False]:
+        if [x[1] for x in s.stops] != [bool(state.get("local_disc"))]:  # (C07: true iff a graceful disconnect had been initiated)
             res.violations.append(Violation(ID, "c12:undecodable:on_stop", str(s.stops)))
         fe = s.conn._fatal_exception
         if type(fe).__name__ != "ProtocolAPIError":
@@ -445,6 +453,8 @@ def _history(draw, tier):
             ops.append({"op": "msg", "type": tid, "payload": draw(pbgen.message_strategy(by_id[tid])), "merge": draw(st.integers(0, 2)) == 0})
         elif r == 11:
             ops.append({"op": "msg", "type": draw(undefined_ids()), "payload": {"hex": draw(st.binary(max_size=6)).hex()}, "merge": draw(st.booleans())})
+        elif r == 12 and draw(st.integers(0, 3)) == 0:
+            ops.append({"op": "local_disconnect"})
         elif r == 12:
             ops.append({"op": "peer", "what": draw(st.sampled_from(["ping", "ping", "gettime", "discreq"]))})
         else:
@@ -464,7 +474,10 @@ def _types(draw, tier):
             tid = draw(st.sampled_from(sorted(set(by_id) - {5, 2, 4})))
             frames.append([tid, draw(pbgen.message_strategy(by_id[tid]))])
         else:
-            tid = draw(st.one_of(undefined_ids(), st.sampled_from([0, 2**21, 2**35]) if not noise else undefined_ids()))
+            # plaintext type numbers are varints of any size: numbers congruent to a defined id modulo 2^16 / 2^32 / 2^64 are
+            # still undefined
+            wide = st.builds(lambda k, i: (1 << k) + i, st.sampled_from([16, 21, 28, 32, 35, 56, 63]), st.sampled_from(sorted(by_id)))
+            tid = draw(st.one_of(undefined_ids(), st.sampled_from([0, 2**21, 2**35]), wide) if not noise else undefined_ids())
             frames.append([tid, {"hex": draw(st.binary(max_size=5)).hex()}])
     return {"kind": "types", "noise": noise, "frames": frames}
 
@@ -495,6 +508,9 @@ def enumerated(tier):
     for lo in range(0, len(ids_), step):
         yield {"kind": "types", "noise": (lo // step) % 2 == 1, "frames": [[t, {"hex": ""}] for t in ids_[lo : lo + step]]}
     yield {"kind": "types", "noise": False, "frames": [[t, {"hex": ""}] for t in (0, 124, 125, 65535, 65536, 2**21, 2**28, 2**35)]}
+    for k in (16, 32, 35, 63):
+        for ids3 in ((7, 36, 26), (8, 25, 1), (5,)):
+            yield {"kind": "types", "noise": False, "frames": [[(1 << k) + i, {"hex": ""}] for i in ids3] + [[26, {"key": 1, "state": True}]]}
     for t in (0, 124, 200, 65535):
         yield {"kind": "types", "noise": t != 200, "frames": [[t, {"hex": "08011001"}], [26, {"key": 1, "state": True}], [t, {"hex": "ffff"}]]}
         yield {"kind": "silent", "K": 2.0, "noise": False, "frames": [[o, t] for o in (33, 129, 257, 385, 513, 641)]}
@@ -519,6 +535,11 @@ def enumerated(tier):
                     subs = [{"op": "sub", "id": f"c{k}", "types": [26], "script": [{"at": at, "do": do}] if k == 0 else []} for k in range(n)]
                     msgs = [{"op": "msg", "type": 26, "payload": {"key": k}, "merge": k % 2 == 0} for k in range(4)]
                     yield {"kind": "history", "noise": noise, "ops": subs + msgs}
+    # crossed disconnects: the device's requests arrive while the client's own disconnect is in flight
+    for noise in (False, True):
+        for what in ("discreq", "ping", "gettime"):
+            yield {"kind": "history", "noise": noise, "ops": [{"op": "sub", "id": "c0", "types": [26, 5], "script": []}, {"op": "msg", "type": 26, "payload": {"key": 1}}, {"op": "local_disconnect"},
+                                                             {"op": "msg", "type": 26, "payload": {"key": 2}}, {"op": "peer", "what": what}, {"op": "msg", "type": 26, "payload": {"key": 3}}]}
     # two request/response waiters and a plain subscriber on one type, answers coalesced in one chunk
     for noise in (False, True):
         for n in (2, 3):
